@@ -4,7 +4,7 @@ import SoxrModel.Chan.Sim
 -/
 namespace Soxr.Chan
 
-variable {σ α β κ : Type} {E : Engine σ α}
+variable {σ α β κ : Type} {E : Engine σ α} {mc : Nat → List α → List β × Nat × Nat}
 
 theorem lastLen_nil : lastLen ([] : List (List α × σ)) = 0 := rfl
 
@@ -57,13 +57,13 @@ theorem procIlen_le' (cfg : Cfg α β) (inb : Option (InBuf β)) (ilen0 : Nat) (
   | some b => exact procIlen_le cfg b ilen0 wi olen
 
 theorem procIlen_proj (cfg : Cfg α β) (c : Nat) (inb : Option (InBuf β)) (ilen0 : Nat) (wi : Bool) (olen : Nat) :
-    procIlen (monoCfg cfg) (inb.map (projIn cfg c ilen0)) ilen0 wi olen = procIlen cfg inb ilen0 wi olen := by
+    procIlen (monoCfgC cfg mc) (inb.map (projIn cfg c ilen0)) ilen0 wi olen = procIlen cfg inb ilen0 wi olen := by
   cases inb <;> rfl
 
 theorem rel_procFlush (Sh : Shape E κ) (cfg : Cfg α β) {c : Nat} {S s : St σ} (h : Rel Sh c cfg.ch S s)
     (inb : Option (InBuf β)) (ilen0 : Nat) (fr wi : Bool) (olen : Nat) :
     Rel Sh c cfg.ch (procFlush cfg S inb ilen0 fr wi olen)
-      (procFlush (monoCfg cfg) s (inb.map (projIn cfg c ilen0)) ilen0 fr wi olen) := by
+      (procFlush (monoCfgC cfg mc) s (inb.map (projIn cfg c ilen0)) ilen0 fr wi olen) := by
   refine ⟨h.hc, h.len, h.clen, h.uni, h.eng, h.clips, ?_, h.error, h.fn, h.seed⟩
   unfold procFlush
   simp only [procIlen_proj, h.flushing]
@@ -72,7 +72,7 @@ theorem rel_procFlush (Sh : Shape E κ) (cfg : Cfg α β) {c : Nat} {S s : St σ
 theorem feedOpt_sim (Sh : Shape E κ) (cfg : Cfg α β) {c : Nat} {S s : St σ} (h : Rel Sh c cfg.ch S s)
     (inb : Option (InBuf β)) (ilen n : Nat) (hn : ilen ≤ n) :
     Rel Sh c cfg.ch { S with eng := feedOpt E cfg S.eng inb ilen }
-      { s with eng := feedOpt E (monoCfg cfg) s.eng (inb.map (projIn cfg c n)) ilen } := by
+      { s with eng := feedOpt E (monoCfgC cfg mc) s.eng (inb.map (projIn cfg c n)) ilen } := by
   cases inb with
   | none =>
     rw [Option.map_none, feedOpt_none, feedOpt_none]; exact h
@@ -82,26 +82,26 @@ theorem feedOpt_sim (Sh : Shape E κ) (cfg : Cfg α β) {c : Nat} {S s : St σ} 
     · show (feedAll E cfg S.eng b ilen).length = _
       rw [feedAll_length]; exact h.len
     · exact uniform_feedAll Sh cfg S.eng b ilen h.uni
-    · show feedAll E (monoCfg cfg) s.eng (projIn cfg c n b) ilen = (feedAll E cfg S.eng b ilen)[c]?.toList
+    · show feedAll E (monoCfgC cfg mc) s.eng (projIn cfg c n b) ilen = (feedAll E cfg S.eng b ilen)[c]?.toList
       rw [h.eng]; exact (feedAll_proj cfg S.eng b ilen n c hn).symm
 
 /-- `soxr_process`, whichever path the layout selects: the 1-channel run mirrors channel `c` -/
-theorem process_sim (Sh : Shape E κ) (cfg : Cfg α β) (P : PureConv cfg.cout) {c : Nat} {S s : St σ}
+theorem process_sim (Sh : Shape E κ) (cfg : Cfg α β) {c : Nat} (V : ChanConv cfg.cout cfg.ch c mc) {S s : St σ}
     (h : Rel Sh c cfg.ch S s) (inb : Option (InBuf β)) (ilen0 : Nat) (fr wi op : Bool) (olen : Nat)
     (rs : List (Nat → FnReply β)) :
     Rel Sh c cfg.ch (process E cfg S inb ilen0 fr wi op olen rs).st
-      (process E (monoCfg cfg) s (inb.map (projIn cfg c ilen0)) ilen0 fr wi op olen (projReplies cfg c rs)).st ∧
-    (process E (monoCfg cfg) s (inb.map (projIn cfg c ilen0)) ilen0 fr wi op olen (projReplies cfg c rs)).idone
+      (process E (monoCfgC cfg mc) s (inb.map (projIn cfg c ilen0)) ilen0 fr wi op olen (projReplies cfg c rs)).st ∧
+    (process E (monoCfgC cfg mc) s (inb.map (projIn cfg c ilen0)) ilen0 fr wi op olen (projReplies cfg c rs)).idone
       = (process E cfg S inb ilen0 fr wi op olen rs).idone ∧
-    (process E (monoCfg cfg) s (inb.map (projIn cfg c ilen0)) ilen0 fr wi op olen (projReplies cfg c rs)).odone
+    (process E (monoCfgC cfg mc) s (inb.map (projIn cfg c ilen0)) ilen0 fr wi op olen (projReplies cfg c rs)).odone
       = (process E cfg S inb ilen0 fr wi op olen rs).odone ∧
-    (process E (monoCfg cfg) s (inb.map (projIn cfg c ilen0)) ilen0 fr wi op olen (projReplies cfg c rs)).out
+    (process E (monoCfgC cfg mc) s (inb.map (projIn cfg c ilen0)) ilen0 fr wi op olen (projReplies cfg c rs)).out
       = [(process E cfg S inb ilen0 fr wi op olen rs).out.getD c []] ∧
     (process E cfg S inb ilen0 fr wi op olen rs).out.length = cfg.ch := by
-  have hb : (blank (monoCfg cfg).ch : List (List β)) = [(blank cfg.ch : List (List β)).getD c []] := by
+  have hb : (blank (monoCfgC cfg mc).ch : List (List β)) = [(blank cfg.ch : List (List β)).getD c []] := by
     rw [blank_getD]; rfl
   have hnone : (inb.map (projIn cfg c ilen0)).isNone = inb.isNone := by cases inb <;> rfl
-  have hfl := rel_procFlush Sh cfg h inb ilen0 fr wi olen
+  have hfl := rel_procFlush (mc := mc) Sh cfg h inb ilen0 fr wi olen
   have hle := procIlen_le' cfg inb ilen0 wi olen
   by_cases hn : op = false ∧ inb.isNone
   · unfold process
@@ -109,20 +109,20 @@ theorem process_sim (Sh : Shape E κ) (cfg : Cfg α β) (P : PureConv cfg.cout) 
     exact ⟨hfl, by simp, by simp, hb, blank_length _⟩
   · by_cases hs : cfg.isplit = true ∧ cfg.osplit = true
     · rw [process_split_eq cfg S inb ilen0 fr wi op olen rs hs hn,
-        process_split_eq (monoCfg cfg) s _ ilen0 fr wi op olen _ hs (by rw [hnone]; exact hn)]
+        process_split_eq (monoCfgC cfg mc) s _ ilen0 fr wi op olen _ hs (by rw [hnone]; exact hn)]
       simp only [procIlen_proj]
-      obtain ⟨h1, h2, h3, h4⟩ := outputNoCb_sim Sh cfg P (feedOpt_sim Sh cfg hfl inb _ ilen0 hle) olen
+      obtain ⟨h1, h2, h3, h4⟩ := outputNoCb_sim Sh cfg V (feedOpt_sim Sh cfg hfl inb _ ilen0 hle) olen
       exact ⟨h1, by simp, h2, h3, h4⟩
-    · have hs' : ¬ ((monoCfg cfg).isplit = true ∧ (monoCfg cfg).osplit = true) := hs
+    · have hs' : ¬ ((monoCfgC cfg mc).isplit = true ∧ (monoCfgC cfg mc).osplit = true) := hs
       unfold process
       simp only [hnone, hn, hs, hs', if_false, procIlen_proj]
       by_cases hz : procIlen cfg inb ilen0 wi olen = 0
       · simp only [hz, ne_eq, not_true_eq_false, not_false_eq_true, if_true, if_false, ite_not]
-        obtain ⟨h1, h2, h3, h4⟩ := output_sim Sh cfg P hfl op olen rs
+        obtain ⟨h1, h2, h3, h4⟩ := output_sim Sh cfg V hfl op olen rs
         exact ⟨h1, by simp, h2, h3, h4⟩
       · simp only [hz, ne_eq, not_true_eq_false, not_false_eq_true, if_true, if_false, ite_not]
-        obtain ⟨hr1, hi1⟩ := input_sim Sh cfg hfl inb (procIlen cfg inb ilen0 wi olen) ilen0 hle
-        obtain ⟨h1, h2, h3, h4⟩ := output_sim Sh cfg P hr1 op olen rs
+        obtain ⟨hr1, hi1⟩ := input_sim (mc := mc) Sh cfg hfl inb (procIlen cfg inb ilen0 wi olen) ilen0 hle
+        obtain ⟨h1, h2, h3, h4⟩ := output_sim Sh cfg V hr1 op olen rs
         exact ⟨h1, hi1, h2, h3, h4⟩
 
 end Soxr.Chan
